@@ -34,7 +34,8 @@ right. Tables are generated from `known_findings.json`, `seeded/` and
   on real systems were not built: real remoting blocks `Tell` during
   reconnect back-off (KF-C14-1), which makes wall-clock cluster scenarios with
   crashes take minutes each and their verdicts timing-dependent.
-* **C07** has three units: the Start/Stop/cancel state machine of the plan
+* **C07** has four units (the fourth, `spawnstop`, is described under
+  "Window units" below); the first three: the Start/Stop/cancel state machine of the plan
   (well-behaved actors, one gated actor), "any actor tree" (trees from the
   scenario engine: failing hooks, zombies, panics while terminating, slow
   terminators that finish before or only after the Stop timed out), and "with
@@ -46,6 +47,19 @@ right. Tables are generated from `known_findings.json`, `seeded/` and
   rapid's shrinker re-runs it dozens of times even with an expired shrink
   budget. The replay file is the failing case itself (JSON), which is small by
   construction. All other units shrink with rapid (20 s budget).
+* **Window units** (C03, C05, C06 `window`; C07 `spawnstop`; C09 `supwindow`;
+  C19 `handover`) were not in the plan. They came out of three seeded changes
+  whose window was two adjacent statements wide (C06-1, C19-7, and the
+  hand-over of a name in general): the random racing units either needed their
+  whole budget or never got there. The units park one actor (or one outside
+  caller of `ActorOf`) at a drawn statement boundary of the code path in
+  question (3.2) and let the rest of the system and a drawn list of outside
+  operations run ahead. The position is part of the generated case, so it
+  shrinks and replays like everything else. `spawnstop` found KF-C07-5 in its
+  first dozen cases.
+* `VERIF_ONLY_UNIT=<unit>` restricts a run of the driver to one unit. It is for
+  sensitivity experiments ("which unit catches this change?"); no registered
+  command sets it.
 * Native `go test -fuzz` is not used in any registered command: the C13
   enumeration over hostile constants found everything the exploratory fuzz
   runs found, and a fuzz campaign cannot be pinned to `VERIF_SEED`.
